@@ -116,7 +116,9 @@ def main(tier, seed, replay=None):
         rows = c01.missing_rows(rs, scope, dom, tier)
         X = np.array([G.np_row(c, width, {}) for c in rows], dtype=np.float32)
         X0 = X.copy()
+        fp0 = G.fingerprint(root)
         Y = mpe(root, X)
+        G.unchanged(root, fp0, "mpe", rep)
         # in-place contract (correspondence-only)
         if not np.array_equal(np.isnan(X), np.isnan(X0)) or not np.allclose(np.nan_to_num(X), np.nan_to_num(X0)):
             rep.violation(dict(kind="caller-array-modified-without-inplace", circuit=tab.brief()), True)
